@@ -367,6 +367,19 @@ func runC02(e *Env) {
 		run("histories-len3-1track", shapes, 3, []int{1})
 		run("histories-len4-sub", sub, 4, []int{1, 3})
 	}
+	// durations whose tick count sits on a boundary of the variable-length delta encoding
+	// (1 | 2 | 3 | 4 bytes: 127/128, 16383/16384, 2097151/2097152 ticks) and of 16 bits
+	var vlq []shape
+	for _, ticks := range []uint64{127, 128, 129, 16383, 16384, 16385, 65535, 65536, 2097151, 2097152, 2097153} {
+		for k := 0; k < 3; k++ {
+			vlq = append(vlq, shape{k, []timing.Frac{fr(ticks, 3840)}})
+		}
+	}
+	if e.Thorough {
+		run("vlq-boundary-durations", vlq, 3, []int{1, 3})
+	} else {
+		run("vlq-boundary-durations", vlq, 2, []int{1, 3})
+	}
 	e.R.Sample(map[string]any{"history": "C[1/3,1/3,1/3] R[1/1920] G7[7/11] on 3 tracks", "oracle": "ons at 0, offs at 960; rest 0 or 1 tick; G7 on at 960|961, length round(960*7/11)=611"})
 	// CLI: every length-1 and a slice of length-2 histories through the real binary
 	var cliCases []playCase
